@@ -79,6 +79,10 @@ func (vc *VC) script(o *Obl, enabled map[string]bool, models bool) string {
 		b.WriteString(d)
 		b.WriteByte('\n')
 	}
+	for _, a := range vc.prelude() {
+		b.WriteString(a)
+		b.WriteByte('\n')
+	}
 	// Houdini enable flags
 	var ids []string
 	for id := range vc.eng.candEnable {
@@ -315,6 +319,10 @@ func (vc *VC) incrementalCores(obls []*Obl, enabled map[string]bool, perCheckMs 
 	}
 	for _, d := range vc.decls {
 		b.WriteString(d)
+		b.WriteByte('\n')
+	}
+	for _, a := range vc.prelude() {
+		b.WriteString(a)
 		b.WriteByte('\n')
 	}
 	var assume []string
